@@ -27,7 +27,7 @@ Proof. reflexivity. Qed.
 Print Assumptions C09_sequence.
 
 (* the premise of abstracting from time in this property's model: the code it models waits, polls and gives up
-   exactly where the model says (primitive codes in Proofs/W_*.v); re-extracted from the source on every run *)
+   with exactly the kinds of primitives the model accounts for (codes in Proofs/W_*.v); re-extracted from the source on every run *)
 Require Import GV.Gen.Consts GV.Proofs.W_director.
 Theorem C09_time_abstraction : waits_director = (@nil Z).
 Proof. exact w_director. Qed.
